@@ -443,7 +443,7 @@ pub fn subs() -> Vec<Box<dyn DynSub>> {
 }
 
 pub fn run(ctx: &Ctx) {
-    let n = ctx.n(3_000_000, 100_000_000);
+    let n = ctx.n(3_000_000, 300_000_000);
     ctx.run_prop(&New, n);
     ctx.run_prop(&Unit, n);
     ctx.run_prop(&Unary, n);
